@@ -286,7 +286,7 @@ class Elf(BinFormat):
         data = self.__file.read(section.sh_size)
         # and parse it into Sym objects:
         l = section.sh_entsize
-        if (section.sh_size % l) != 0:
+        if l == 0 or (section.sh_size % l) != 0:
             raise ElfError("symbol table size mismatch")
         else:
             n = section.sh_size // l
@@ -313,7 +313,7 @@ class Elf(BinFormat):
         self.__file.seek(section.sh_offset)
         data = self.__file.read(section.sh_size)
         l = section.sh_entsize
-        if (section.sh_size % l) != 0:
+        if l == 0 or (section.sh_size % l) != 0:
             raise ElfError("relocation table size mismatch")
         else:
             n = section.sh_size // l
@@ -339,7 +339,7 @@ class Elf(BinFormat):
         data = self.__file.read(section.sh_size)
         # and parse it into Dyn objects:
         l = section.sh_entsize
-        if (section.sh_size % l) != 0:
+        if l == 0 or (section.sh_size % l) != 0:
             raise ElfError("dynamic linking size mismatch")
         else:
             n = section.sh_size // l
